@@ -902,3 +902,124 @@ def classify(case, impl, fail):
     if [i for i in equal_updates(prog) if i <= at]:
         return 'equal-but-not-identical-update-ignored'
     return None
+
+
+# ---------------------------------------------------------------- generated fragment: the operator table of `class rx`
+
+GENERATED = os.path.join(os.path.dirname(__file__), '..', '..', 'lean', 'ParamVerif', 'Generated', 'RxOps.lean')
+
+
+def _dotted(node):
+    if isinstance(node, ast.Name):
+        return node.id
+    if isinstance(node, ast.Attribute):
+        base = _dotted(node.value)
+        return None if base is None else base + '.' + node.attr
+    return None
+
+
+def _resolves(dotted):
+    import builtins
+    import importlib
+    parts = dotted.split('.')
+    if len(parts) == 1:
+        return hasattr(builtins, parts[0])
+    if parts[0] not in ('operator', 'math'):
+        return False
+    obj = importlib.import_module(parts[0])
+    for p in parts[1:]:
+        if not hasattr(obj, p):
+            return False
+        obj = getattr(obj, p)
+    return True
+
+
+def _shape(fn):
+    """(function dotted name, reverse, unary) if the method body is
+    `return self._apply_operator(F[, other][, reverse=<bool>])`, else None"""
+    body = list(fn.body)
+    if body and isinstance(body[0], ast.Expr) and isinstance(getattr(body[0], 'value', None), ast.Constant) \
+            and isinstance(body[0].value.value, str):
+        body = body[1:]
+    if len(body) != 1 or not isinstance(body[0], ast.Return) or not isinstance(body[0].value, ast.Call):
+        return None
+    call = body[0].value
+    params = [a.arg for a in fn.args.args]
+    if fn.args.vararg or fn.args.kwarg or fn.args.kwonlyargs or fn.args.defaults or len(params) not in (1, 2):
+        return None
+    if _dotted(call.func) != params[0] + '._apply_operator' or not call.args:
+        return None
+    f = _dotted(call.args[0])
+    if f is None:
+        return None
+    rest = call.args[1:]
+    if len(params) == 1:
+        if rest:
+            return None
+    elif len(rest) != 1 or not isinstance(rest[0], ast.Name) or rest[0].id != params[1]:
+        return None
+    reverse = False
+    for kw in call.keywords:
+        if kw.arg != 'reverse' or not isinstance(kw.value, ast.Constant) or not isinstance(kw.value.value, bool):
+            return None
+        reverse = kw.value.value
+    return f, reverse, len(params) == 1
+
+
+def _lean_str(s):
+    return '"' + s.replace('\\', '\\\\').replace('"', '\\"') + '"'
+
+
+def extract():
+    """regenerate lean/ParamVerif/Generated/RxOps.lean from the current param/reactive.py"""
+    from .. import common
+    src = open(os.path.join(common.REPO, 'param', 'reactive.py')).read()
+    tree = ast.parse(src)
+    cls = next((n for n in tree.body if isinstance(n, ast.ClassDef) and n.name == 'rx'), None)
+    entries = {}
+    if cls is not None:
+        for fn in cls.body:
+            if not isinstance(fn, ast.FunctionDef) or not (fn.name.startswith('__') and fn.name.endswith('__')):
+                continue
+            uses = any(isinstance(n, ast.Attribute) and n.attr == '_apply_operator' for n in ast.walk(fn))
+            if not uses:
+                continue
+            sh = _shape(fn)
+            if sh is None:
+                entries[fn.name] = (fn.name, '', False, False, False, False)
+            else:
+                f, rev, unary = sh
+                entries[fn.name] = (fn.name, f, rev, unary, _resolves(f), True)
+    rows = [entries[k] for k in sorted(entries)]
+    b = lambda x: 'true' if x else 'false'
+    lines = ['/- GENERATED by harness/props/c09.py extract() from param/reactive.py (class rx) — do not edit.',
+             '   One entry per dunder method of `class rx` that calls `self._apply_operator`:',
+             '   (dunder, dotted name of the function, reverse flag, unary?, does the name resolve in',
+             '   operator / math / builtins?, was the method body of the recognised shape',
+             '   `return self._apply_operator(F[, other][, reverse=<bool>])`?) -/',
+             'namespace ParamVerif.Generated.RxOps',
+             '',
+             'structure Entry where',
+             '  dunder : String',
+             '  fn : String',
+             '  reverse : Bool',
+             '  unary : Bool',
+             '  resolves : Bool',
+             '  recognised : Bool',
+             '  deriving DecidableEq, Repr',
+             '',
+             'def classFound : Bool := ' + b(cls is not None),
+             '',
+             'def table : List Entry := [']
+    lines += ['  ' + ',\n  '.join(
+        f'⟨{_lean_str(d)}, {_lean_str(f)}, {b(r)}, {b(u)}, {b(e)}, {b(k)}⟩' for d, f, r, u, e, k in rows)] if rows else []
+    lines += [']', '', 'end ParamVerif.Generated.RxOps', '']
+    text = '\n'.join(lines)
+    path = os.path.abspath(GENERATED)
+    os.makedirs(os.path.dirname(path), exist_ok=True)
+    if not os.path.exists(path) or open(path).read() != text:
+        tmp = path + '.tmp'
+        open(tmp, 'w').write(text)
+        os.replace(tmp, path)
+    return {'file': 'lean/ParamVerif/Generated/RxOps.lean', 'entries': len(rows),
+            'unrecognised': [r[0] for r in rows if not r[5]], 'unresolved_function': [r[0] for r in rows if r[5] and not r[4]]}
